@@ -648,6 +648,23 @@ func (s *ibSess) observe(p *ibVer, nReads int) {
 				sz[i] = 1 + r.Intn(2*s.bs[i]+3)
 			}
 		}
+		if r.Chance(0.2) {
+			// a column: exactly one block wide on one axis (aligned), several blocks long on another
+			a := r.Intn(3)
+			if r.Bool() {
+				a = 0 // rows of the request as long as rows of a block
+			}
+			off[a] = fdivI(off[a], s.bs[a]) * s.bs[a]
+			sz[a] = s.bs[a]
+			for _, b := range []int{(a + 1) % 3, (a + 2) % 3} {
+				// long enough on the other axes to hold whole blocks, usually unaligned
+				sz[b] = s.bs[b] + 1 + r.Intn(2*s.bs[b])
+				if r.Chance(0.3) {
+					sz[b] = s.bs[b]
+				}
+			}
+			s.c.Count("read box: one-block-wide column")
+		}
 		if r.Chance(0.15) { // aligned on some axes
 			for i := 0; i < 3; i++ {
 				if r.Bool() {
